@@ -267,8 +267,9 @@ Definition k_language := s "language".
 Definition und := s "und".
 
 Definition migrate_13_2 (tx : str -> str) (fr : list str) (f : obj) : obj * list str :=
+  (* repaired code: utf8.RuneCountInString(language) != 3 *)
   let language := match get_str k_language f with Some l => l | None => [] end in
-  if utf8_len language =? 3 then (f, fr)
+  if Nat.eqb (List.length language) 3 then (f, fr)
   else
     let f1 := oset k_language (JStr und) f in
     (match get_obj k_localization f1 with
